@@ -284,8 +284,9 @@ fn run_case(rep: &mut Report, c: &Value) {
         "Affine2" => mat!(Affine2, no), "Affine3A" => mat!(Affine3A, no), "DAffine2" => mat!(DAffine2, yes), "DAffine3" => mat!(DAffine3, yes),
         "Quat" => quat!(Quat), "DQuat" => quat!(DQuat),
         "BVec2" => mask!(BVec2, [0, 1]), "BVec3" => mask!(BVec3, [0, 1, 2]), "BVec4" => mask!(BVec4, [0, 1, 2, 3]),
-        "BVec3A" => { #[cfg(not(feature = "scalar-math"))] mask!(BVec3A, [0, 1, 2]); }
-        "BVec4A" => { #[cfg(not(feature = "scalar-math"))] mask!(BVec4A, [0, 1, 2, 3]); }
+        // (in scalar-math builds too: they are distinct types there, and "every glam type serialises ... identically in SIMD and scalar builds")
+        "BVec3A" => mask!(BVec3A, [0, 1, 2]),
+        "BVec4A" => mask!(BVec4A, [0, 1, 2, 3]),
         _ => rep.spec_error(json!({"what": "type of the specification is not in the harness", "ty": name})),
     }
     // mint: entry (r, c) is preserved by column-major and by row-major mint matrices
